@@ -163,6 +163,13 @@ def e2e_checks(sc, b, rs, err, sol, viol, stats):
     else:
         pts = []  # the single checkpoint is an interpolation: C05's business; compare the scale only
     for k in pts:
+        # once a step's residual has cancelled completely (1e3 eps kappa > 1e-2: its float64 value is rounding noise, and
+        # the gain that multiplies it is of order h^-q) the library's and the reference's trajectories are two different
+        # realisations of that noise -- observed 0.3 apart after five steps of 0.01 with q = 6 and 1e-6 initial std on all
+        # coefficients, while every single step agrees to 4e-10 from the library's own pre-state (the step-local part)
+        if compare.ill_conditioned(max(float(hist[j]["kappa"]) for j in range(1, k + 1))):
+            stats["e2e_points_skipped_ill_conditioned"] = stats.get("e2e_points_skipped_ill_conditioned", 0) + len(pts) - pts.index(k)
+            break
         m, P = embed.normal_np_at(sol.u, k)
         mref, Pref, Pp = hist[k]["m"], hist[k]["P"], hist[k]["Ppred"]
         scaled = cfg["calib"] in ("mle", "dynamic")
